@@ -9,5 +9,5 @@ cd /verif
 ./check $ID --tier $TIER > /tmp/seedrun.out 2>&1
 RC=$?
 git -C /repo checkout -- .; rm -rf /verif/replays/$ID
-grep -E "^VIOLATION|^KNOWN|^MACHINERY|^C[0-9]+ " /tmp/seedrun.out | cut -c1-400 | head -8
+grep -a -E "^VIOLATION|^KNOWN|^MACHINERY|^C[0-9]+ " /tmp/seedrun.out | cut -c1-400 | head -8
 echo "exit=$RC"
